@@ -29,6 +29,8 @@ pub fn alphabet() -> Vec<Ev> {
         RoundOpen,
         Others(0b010),
         Others(0b110),
+        AggAhead,
+        NodeCatchUp,
         PublishFails,
         RegisterAckLost,
         Restart,
@@ -47,7 +49,10 @@ pub fn prefixes() -> Vec<Vec<Ev>> {
     // (4) epoch 4 reached, not yet noticed by the signer, which signed everything in epoch 3
     let mut p4 = p3.clone();
     p4.extend([Tick, Tick, Tick, Epoch]);
-    vec![p1, p2, p3, p4]
+    // (5) the signer started while the aggregator was already one epoch ahead (it ran two cycles in
+    // that situation), then its node caught up
+    let p5 = vec![AggAhead, Tick, Tick, NodeCatchUp];
+    vec![p1, p5, p3, p2, p4]
 }
 
 pub fn run(ctx: &Ctx) -> ! {
@@ -62,7 +67,7 @@ pub fn run(ctx: &Ctx) -> ! {
         "explicit-state exploration by replay of the real signer node (state machine, runner, epoch service, single signer, certifier, \
          SQLite stores) against an in-process reference aggregator: every history is replayed on a fresh node, every publication is \
          judged by the reference when it happens, the publication log is checked at the end and a fault-free tail of three epochs (run once per \
-         canonical state) must make the signer sign again; a history is non-trivial when the signer published at least one signature; distinct = distinct \
+         canonical state; the node first catches up with the aggregator) must produce only correct publications and make the signer sign again; a history is non-trivial when the signer published at least one signature; distinct = distinct \
          canonical states reached by such histories",
     );
     let stats: Mutex<BTreeMap<&'static str, u64>> = Mutex::new(BTreeMap::new());
@@ -129,8 +134,8 @@ pub fn run(ctx: &Ctx) -> ! {
     }
 
     if std::env::var("MC_NOMINAL_ONLY").is_ok() {
-        for (epochs, slack) in [(5usize, 0usize), (4, 0), (5, 2)] {
-            let nom = nominal(epochs, slack);
+        for (epochs, slack) in [(5usize, 0usize), (4, 0), (5, 2), (0, 0)] {
+            let nom = if epochs == 0 { crate::sys::nominal_skewed(4, 0) } else { nominal(epochs, slack) };
             let t = std::time::Instant::now();
             let o = replay(&scratch, &fixture, &nom, Tail::Always);
             eprintln!(
@@ -190,14 +195,32 @@ pub fn run(ctx: &Ctx) -> ! {
     // (b) deviation ball around the nominal schedule (four epochs quick, five thorough): drop,
     // duplicate, swap, or insert any event of the alphabet anywhere
     let nom = nominal(ctx.tier.pick(4, 5), 0);
-    let edits = |h: &[Ev]| standard_edits(h, &alpha, 0);
+    // (inserting an event that only switches a fault off, or lets the node catch up, into the fault-free
+    // schedule has no effect at all: those insertions are left out)
+    let ins1: Vec<Ev> = alpha.iter().copied().filter(|e| !matches!(e, Ev::AggUp | Ev::StaleOff | Ev::RoundOpen | Ev::NodeCatchUp)).collect();
+    let edits = |h: &[Ev]| standard_edits(h, &ins1, 0);
     let t_part = std::time::Instant::now();
     let st = ex.ball(&nom, &edits, 1, &mut rep);
     eprintln!("[C20] ball(1): {} histories, {} states, {:.1}s", st.transitions, st.states, t_part.elapsed().as_secs_f64());
     rep.extra(
         "ball_nominal",
-        json!({"nominal_epochs": ctx.tier.pick(4, 5), "nominal_len": nom.len(), "deviation_alphabet": alpha.len(), "bound_completed": st.depth_completed, "histories": st.transitions, "states": st.states}),
+        json!({"nominal_epochs": ctx.tier.pick(4, 5), "nominal_len": nom.len(), "deviation_alphabet": ins1.len(), "bound_completed": st.depth_completed, "histories": st.transitions, "states": st.states}),
     );
+    // (b'') the same around the schedule in which the aggregator's node is always first to enter an epoch
+    // (quick: drop / duplicate / swap and insertion of the events that move the signer or the clocks)
+    {
+        use Ev::*;
+        let skewed = crate::sys::nominal_skewed(4, 0);
+        let ins: Vec<Ev> = if quick { vec![Tick, Epoch, AggAhead, NodeCatchUp, Restart] } else { alpha.clone() };
+        let edits_s = |h: &[Ev]| standard_edits(h, &ins, 0);
+        let t_part = std::time::Instant::now();
+        let st = ex.ball(&skewed, &edits_s, 1, &mut rep);
+        eprintln!("[C20] ball(1, aggregator ahead): {} histories, {} states, {:.1}s", st.transitions, st.states, t_part.elapsed().as_secs_f64());
+        rep.extra(
+            "ball_nominal_aggregator_ahead",
+            json!({"nominal_epochs": 4, "nominal_len": skewed.len(), "deviation_alphabet": ins.len(), "bound_completed": st.depth_completed, "histories": st.transitions, "states": st.states}),
+        );
+    }
     if !quick {
         // two injected faults, from the first signing epoch on, around the four-epoch schedule
         use Ev::*;
@@ -299,6 +322,7 @@ pub fn run(ctx: &Ctx) -> ! {
     rep.extra("reference_offsets", json!({"recorded_for": "e+1", "signs_in": "e+2"}));
     rep.assume("the Cardano node (chain observer, immutable file observer, block scanner, immutable digester) is replaced by the repository's own test doubles; the aggregator by the harness reference aggregator called in process (no HTTP, no message adapters)");
     rep.assume("reference rule: keys registered during epoch e, the stake distribution the chain showed during e and the parameters handed out during e are in force in e+2; a repeated registration in the same epoch replaces the earlier one");
+    rep.assume("the aggregator's clock is the signer's node epoch plus a skew of 0 or 1 (AggAhead / NodeCatchUp); a publication is judged by the epoch of the signed entity; while its node is behind an honest signer may be unable to register or sign - only wrong publications count then, liveness only after the node has caught up and faults are cleared");
     rep.assume("events are atomic with respect to a state-machine cycle: no fault or chain event happens in the middle of a cycle");
     rep.assume("the node draws its keys from the OS random generator: signatures differ between runs, canonical states record only which keys exist and whether signer and aggregator agree on them; the signer under test holds ~3/4 of the stake and the reference parameters are m>=30, phi_f>=0.8, so it wins at least one lottery except with probability < 1e-15 per signature");
     rep.assume("only acknowledged publications count for 'at most once'; a further publication after an unacknowledged one is legitimate");
